@@ -54,6 +54,8 @@ class Rec:
         self.workers = 0
         self.worker_by_task: dict[str, int] = {}
         self.sub_of_task: dict[int, int] = {}
+        self.n_subs = 0                 # ensemble tasks spawned so far (NOT len(sub_of_task): CPython re-uses the id() of a freed task)
+        self.sub_refs: list = []        # the spawned tasks are kept alive for the run, so that ids stay unique too
 
     def ref(self, name: str | None = None) -> Any:
         """(actor kind, reference) of the current task: root name | ensemble index | worker id."""
@@ -309,7 +311,9 @@ def instrument(rec: Rec, poison: dict) -> Iterator[None]:
     # ---- the orchestrator's ensemble tasks ---------------------------------------------------------------
     def o_create_guarded_task(coro: Any, name: str, **kw: Any) -> Any:
         t = aiotasks.create_guarded_task(coro=coro, name=name, **kw)
-        idx = len(rec.sub_of_task)
+        idx = rec.n_subs
+        rec.n_subs += 1
+        rec.sub_refs.append(t)
         rec.subs[name] = idx            # a task spawned anew for the same key has the same name: the latest one counts
         rec.sub_of_task[id(t)] = idx
         kind = classify_actor(name)
